@@ -261,11 +261,35 @@ def check_header_projection(case, out, L, R, lk, rk, lo, ro, lpre, rpre, oss, ha
     return v
 
 
+def empties_corpus():
+    """deterministic C09 cases: every join x allow_empty x allow_missing x n_jobs on two small tables in which values that
+    tokenize to nothing occur on both sides (together with a one-sided empty, a missing value and ordinary values)"""
+    ts = TokSpec('ws', return_set=True)
+    L = pd.DataFrame({'id': [1, 2, 3, 4, 5], 'attr': pd.Series(['a b', '', 'c d e', '   ', None], dtype=object)})
+    R = pd.DataFrame({'id': [11, 12, 13, 14, 15, 16], 'attr': pd.Series(['', 'a b', 'c d', ' ', None, 'e'], dtype=object)})
+    for which in ('jaccard', 'cosine', 'dice', 'overlap_coefficient', 'overlap'):
+        for ae in (True, False):
+            for am in (True, False):
+                for nj in (1, 2, 3):
+                    for (t, op) in (((1, '>=') if which == 'overlap' else (0.5, '>=')), ((2, '=') if which == 'overlap' else (1.0, '='))):
+                        kw = {'comp_op': op, 'allow_missing': am, 'l_out_attrs': None, 'r_out_attrs': ['attr'], 'out_sim_score': True, 'n_jobs': nj}
+                        if which != 'overlap':
+                            kw['allow_empty'] = ae
+                        elif not ae:
+                            continue
+                        yield which, ts, L, R, 'id', 'id', 'attr', 'attr', t, kw
+
+
 def oracle_setsim(rng, n, stats, props, whiches=('jaccard', 'cosine', 'dice', 'overlap_coefficient', 'overlap'), adversarial_p=0.3, **gk):
     v = []
-    for _ in range(n):
+    fixed = list(empties_corpus()) if ('C09' in props and not gk) else []
+    for it in range(n + len(fixed)):
         which = rng.choice(whiches)
-        if rng.random() < adversarial_p and which in MEASURE_OF:
+        if it < len(fixed):
+            which, ts, L, R, lk, rk, la, ra, t, kw = fixed[it]
+            if which not in whiches:
+                continue
+        elif rng.random() < adversarial_p and which in MEASURE_OF:
             c = adversarial_join_case(rng, which, stats)
             if c is None:
                 continue
